@@ -82,7 +82,7 @@ def gen_built(R, viewbox):
 
     def shape(i):
         kind = R.choice(GD.SHAPES)
-        s = {"kind": kind, "id": "s%d" % i, "m": matrix(), "paint": paint()}
+        s = {"kind": kind, "id": "s%d" % i, "m": matrix(), "paint": paint(), "late": R.random() < 0.4}
         unit = (lambda v: "%r%s" % (v, R.choice(["px", "pt", "pc"]))) if R.random() < 0.15 else (lambda v: v)
         # a coordinate that the matrix moves to exactly zero
         zero = s["m"] is not None and s["m"][1] == 0 and s["m"][2] == 0 and R.random() < 0.3
@@ -225,7 +225,11 @@ def build_tree(S, t, reify):
             return g
         a = dict(d["args"])
         kw = dict(d["paint"])
-        kw["id"] = d["id"]
+        late = d.get("late")  # id and paint assigned to the object after construction: only the writer's own emission can carry them
+        if late:
+            kw = {}
+        else:
+            kw["id"] = d["id"]
         k = d["kind"]
         if k == "rect":
             o = S.Rect(**a, **kw)
@@ -241,6 +245,13 @@ def build_tree(S, t, reify):
             o = S.Polygon(points=[tuple(p) for p in a["points"]], **kw)
         else:
             o = S.Path(a["d"], **kw)
+        if late:
+            o.id = d["id"]
+            for key, val in d["paint"].items():
+                if key == "stroke_width":
+                    o.stroke_width = val
+                else:
+                    setattr(o, key, S.Color(val))
         o.render(ppi=96.0, width=t["width"], height=t["height"])
         if d.get("m"):
             o *= S.Matrix(*d["m"])
